@@ -9,8 +9,8 @@ PROP = dict(
                        "C26_filled_spec"],
     harness_bin="c26",
     mismatch_is_violation=True,
-    rule="programs over 2-3 array variables of depth 1 and 0-2 of depth 2 (array<array<E>>), E in {int from {0,1,2}, bool, string from "
-         "6 short strings} (void joins when the D34/D35 fixes have landed; until then the void shapes are run as direct probes); "
+    rule="programs over 2-3 array variables of depth 1 and 0-2 of depth 2 (array<array<E>>), E in {int from {0,1,2}, bool, void (nil), string from "
+         "6 short strings}; first the 7 regression programs of D34/D35 (array<void>); "
          "directed stream: every operation x array length {0,1,3} x index in {-1,0,len-1,len,len+1, MAX, MIN, MIN+1, +-2^32, 2^32+1, 2^62, -(2^32-1)} "
          "(quick: a seeded third); random stream: 500 (quick) / 6000 (thorough) histories of up to 25 / 80 statements drawn from "
          "push, pop, get, set, len, is_empty, swap, remove, clear, find, contains and assignment of literal / filled / clone / alias / "
@@ -31,7 +31,7 @@ PROP = dict(
                "extension functions: each refines the list operation (l ++ [x], dropLast/getLast, two-sided bound, set, least index, "
                "swap-with-last removal), errors are ArrayOutOfBounds with no partial write, clone/filled produce deep, mutually independent "
                "copies at any nesting depth. Tied to /repo on every run by executing random aliased histories on the real VM.",
-    level_note="The step from vm.rs / prelude.abra to the heap model is by correspondence. D34/D35 (array<void>: element reads in for-bodies fault the VM; "
-               "out-of-range stores of void are not detected) are fix rows: until they land the check reports them as concrete failing inputs.",
+    level_note="The step from vm.rs / prelude.abra to the heap model is by correspondence. D6 (pop on empty), D34/D35 (array<void>: element reads in for-bodies faulted the VM; "
+               "out-of-range stores of void were not detected) were found by this check and are fixed in /repo; their inputs run first as a regression corpus.",
     technique="Lean 4 refinement theorems over an explicit heap model + differential correspondence against the real VM + reference list model in Rust",
 )
